@@ -88,14 +88,13 @@ func (api *HTTP) getMessages(ctx context.Context, lastSeen robust.Id, msgschan c
 	// …when resuming, GetNext(1431542836610113945.2) will return
 	// 1431542836691955391.*, skipping the remaining messages with
 	// Id=1431542836610113945.
-	// Hence, we need to Get(1431542836610113945.2) to send
-	// 1431542836610113945.3 and following to the client.
-	if msgs, ok := api.output().Get(lastSeen); ok && int(lastSeen.Reply) < len(msgs) {
-		select {
-		case <-ctx.Done():
-			return
-		case msgschan <- outputToRobustMessages(msgs[lastSeen.Reply:]):
-		}
+	// Hence, we ask for the messages following the previous input message
+	// (which returns 1431542836610113945.*) and skip the replies which the
+	// client has already seen. Unlike a one-time Get(1431542836610113945.2),
+	// this also works when this node has not yet applied that message.
+	resume := lastSeen
+	if lastSeen.Id > 0 {
+		lastSeen = robust.Id{Id: lastSeen.Id - 1}
 	}
 
 	for {
@@ -110,7 +109,7 @@ func (api *HTTP) getMessages(ctx context.Context, lastSeen robust.Id, msgschan c
 		// because the server is currently recovering from a snapshot after
 		// being restarted, or because the server’s network connection to
 		// the rest of the network is currently slow.
-		if msgs[0].Id.Id < lastSeen.Id {
+		if msgs[0].Id.Id <= lastSeen.Id {
 			glog.Warningf("lastSeen (%d) more recent than GetNext() result %d\n", lastSeen.Id, msgs[0].Id.Id)
 			glog.Warningf("This should only happen while the server is recovering from a snapshot\n")
 			glog.Warningf("The message in question is %v\n", msgs[0])
@@ -120,6 +119,13 @@ func (api *HTTP) getMessages(ctx context.Context, lastSeen robust.Id, msgschan c
 		}
 
 		lastSeen = msgs[0].Id
+		if lastSeen.Id == resume.Id {
+			// The client has already seen the first |resume.Reply| replies.
+			if resume.Reply >= uint64(len(msgs)) {
+				continue
+			}
+			msgs = msgs[resume.Reply:]
+		}
 		select {
 		case <-ctx.Done():
 			return
